@@ -29,6 +29,24 @@ CHECKS = {
              "(LEB delta accumulation across blocks, offsets, compressed flag, append). lz4_flex is not modelled (compress = id in the model; "
              "the compression decision is an arbitrary predicate). Trusted: Lean kernel, table translator vf/tables.py, harness, generators.",
     ),
+    "C02": dict(
+        technique="Lean 4 proof (invariant by induction over operation histories, every block size) + differential store histories around 65535-multiples",
+        text="Lean theorems C02_timeTable_exact / C02_timeTable_strict: for every history of time/value operations accepted by the model of wavemem::Encoder and every "
+             "block size (BlockTimeIdx::MAX is a parameter), the table returned by finish is strictPrefixMax of the timestamps (C02_mem_iff characterises it), hence strictly "
+             "increasing with each step exactly once. The model is compared with the real Encoder on histories with repeated/backwards timestamps, 65534..65537, 131069..131072 "
+             "and 200000 steps and encoder splits; Spec.run supplies the expected table and indices.",
+        design_ref="DESIGN.md section 5 / C02",
+        note="Proved for the wavemem store (VCD and GHW back end). Index validity/monotonicity per signal and the FST time chain are covered by the differential run against "
+             "Spec.run only (no theorem yet). The implicit leading 0 of VCD bodies is part of the C01 model. Trusted: Lean kernel, harness, generators.",
+    ),
+    "C06": dict(
+        technique="Lean 4 proof (canon / minimal-kind / width lemmas by induction; entry injectivity from the round trip) + differential redundant-write histories",
+        text="Lean theorems C06_no_repeat, C06_only_repeats_dropped, C06_kind_minimal, C06_write_kind_minimal, C06_width, C06_entry_injective, C06_push_no_repeat: the specification "
+             "output is canonical, the loader's byte-wise de-duplication removes exactly the repetitions, kinds are minimal and widths exact. The real store is compared with Spec.run "
+             "on histories rich in redundant writes (inside a step, across steps, across the 65535 block boundary, across encoder splits, same value in different kinds).",
+        design_ref="DESIGN.md section 5 / C06",
+        note="Covers the wavemem path (VCD, GHW). FST SignalWriter and slices are claimed under C10/C13. Stream/block level is differential only. Trusted: Lean kernel, harness, generators.",
+    ),
 }
 
 NOT_YET = "check not built yet in this round (machinery under construction; see DESIGN.md section 10 for the order of work)"
